@@ -91,22 +91,21 @@ Definition lpg_lin_ok (progs : list (list gop)) (c : gcfg) : bool :=
 
 Definition lpg_pair_ok (a b : gop) : bool :=
   let progs := [[a]; [b]] in
-  k_label progs || k_edge_torn 2 progs ||
+  k_edge_torn 2 progs ||
   forall_scheds gcode gexec 16 (ginit (gsetup lpg_setup) progs) (lpg_lin_ok progs).
 
 Lemma lpg_pairs_all : forallb (fun a => forallb (lpg_pair_ok a) lpg_templates) lpg_templates = true.
 Proof. vm_compute. reflexivity. Qed.
 
 Lemma lpg_pairs_linearizable_l : forall a b sched,
-  In a lpg_templates -> In b lpg_templates ->
-  k_label [[a]; [b]] = false -> k_edge_torn 2 [[a]; [b]] = false ->
+  In a lpg_templates -> In b lpg_templates -> k_edge_torn 2 [[a]; [b]] = false ->
   let c := grun sched (ginit (gsetup lpg_setup) [[a]; [b]]) in
   finished c = true -> lpg_lin_ok [[a]; [b]] c = true.
 Proof.
-  intros a b sched Ha Hb K1 K2 c Fin.
+  intros a b sched Ha Hb K2 c Fin.
   pose proof lpg_pairs_all as T. rewrite forallb_forall in T. specialize (T a Ha).
   rewrite forallb_forall in T. specialize (T b Hb). unfold lpg_pair_ok in T.
-  rewrite K1, K2 in T. rewrite !orb_false_l in T.
+  rewrite K2 in T. rewrite !orb_false_l in T.
   apply (forall_scheds_sound _ _ _ _ _ gcode gexec 16 _ _ T sched). exact Fin.
 Qed.
 
@@ -117,18 +116,17 @@ Definition rdf_lin_ok (progs : list (list qop)) (c : qcfg) : bool :=
   orc_rdf [0; 1; 2; 3; 4; 5] [0; 2] progs (outputs c) (mkQObs (q_prim q) (q_s q) (q_p q) (q_o q)).
 Definition rdf_pair_ok (a b : qop) : bool :=
   let progs := [[a]; [b]] in
-  k_rdf progs || forall_scheds qcode qexec 12 (qinit (rdf_of [0; 2]) progs) (rdf_lin_ok progs).
+  forall_scheds qcode qexec 12 (qinit (rdf_of [0; 2]) progs) (rdf_lin_ok progs).
 Lemma rdf_pairs_all : forallb (fun a => forallb (rdf_pair_ok a) rdf_templates) rdf_templates = true.
 Proof. vm_compute. reflexivity. Qed.
 Lemma rdf_pairs_linearizable_l : forall a b sched,
-  In a rdf_templates -> In b rdf_templates -> k_rdf [[a]; [b]] = false ->
+  In a rdf_templates -> In b rdf_templates ->
   let c := qrun sched (qinit (rdf_of [0; 2]) [[a]; [b]]) in
   finished c = true -> rdf_lin_ok [[a]; [b]] c = true.
 Proof.
-  intros a b sched Ha Hb K1 c Fin.
+  intros a b sched Ha Hb c Fin.
   pose proof rdf_pairs_all as T. rewrite forallb_forall in T. specialize (T a Ha).
   rewrite forallb_forall in T. specialize (T b Hb). unfold rdf_pair_ok in T.
-  rewrite K1 in T. rewrite !orb_false_l in T.
   apply (forall_scheds_sound _ _ _ _ _ qcode qexec 12 _ _ T sched). exact Fin.
 Qed.
 
